@@ -20,6 +20,8 @@ inductive PickBeh
   | nosc               -- ErrNoSubConnAvailable (a new picker will be published)
   | hang               -- ErrNoSubConnAvailable and no new picker ever
   | drop (code : Nat)  -- a status error: the RPC ends with it (dropError)
+  | notreadyCancel     -- like `notready`, and the RPC's context ends while `Pick` runs
+  | noscCancel         -- like `nosc`, and the RPC's context ends while `Pick` runs
 deriving Repr, DecidableEq
 
 inductive PEv
@@ -31,6 +33,7 @@ inductive PickOutcome
   | picked (hasDone : Bool) (id : Nat)
   | hangs
   | dropped (code : Nat)
+  | cancelled          -- the blocked pick saw `ctx.Done()`: status CANCELLED, no pick result is kept
 deriving Repr, DecidableEq
 
 /-- `pickerWrapper.pick` against the scripted picker (every blocked iteration is woken by the next
@@ -51,12 +54,32 @@ def pickLoop : List PickBeh → Nat → List PEv × List PickBeh × Nat × PickO
       (.pick id .nosc :: r.1, r.2.1, r.2.2.1, r.2.2.2)
     | .hang => ([.pick id .hang], rest, id, .hangs)
     | .drop c => ([.pick id (.drop c)], rest, id, .dropped c)
+    | .notreadyCancel =>
+      -- not ready: Done(DoneInfo{}) at once — whatever became of the context — then the loop goes round,
+      -- finds it has already asked this picker, waits, and `ctx.Done()` ends the pick
+      ([.pick id .notreadyCancel, .done id 0], rest, id, .cancelled)
+    | .noscCancel => ([.pick id .noscCancel], rest, id, .cancelled)
 
 /-- gRFC A54: a picker's status error with one of these codes is replaced by INTERNAL
     (`istatus.IsRestrictedControlPlaneCode`): InvalidArgument, NotFound, AlreadyExists,
     FailedPrecondition, Aborted, OutOfRange, DataLoss. -/
 def dropStatus (code : Nat) : Nat :=
   if [3, 5, 6, 9, 10, 11, 15].contains code then 13 else code
+
+/-- Which stream creations of an RPC fail, given the picker script and the per-RPC credentials script:
+    a pick that ends with the context cancelled fails the creation with CANCELLED (1) and does not
+    reach the credentials; otherwise the next credentials outcome applies.  (`hang` / `drop` only
+    occur as the outcome of the first pick and end the script.) -/
+def mergeNS : Nat → List PickBeh → List (Option Nat) → List (Option Nat)
+  | 0, _, creds => creds
+  | fuel + 1, picks, creds =>
+    if picks.isEmpty then creds
+    else
+      let r := pickLoop picks 0
+      match r.2.2.2 with
+      | .cancelled => [some 1]
+      | .picked _ _ => creds.head?.join :: mergeNS fuel r.2.1 creds.tail
+      | _ => creds
 
 structure PickSt where
   script : List PickBeh
